@@ -11,6 +11,7 @@ from . import common
 from .common import *
 
 NS = '{http://graphml.graphdrawing.org/xmlns}'
+JSON_TEXT_LIMIT = 40000
 RESERVED = {'GraphID': 0, 'NodeID': 1, 'Class': 2, 'id': 3, 'source': 4, 'target': 5}
 TYPES = {'string': 'TString', 'long': 'TLong', 'boolean': 'TBoolean'}
 EPS = ['EString', 'EStringDirect', 'EFile', 'EFileDirect']
@@ -28,6 +29,10 @@ class Names:
         if name not in self.t:
             self.t[name] = 10 + len(self.t) - len(RESERVED)
         return cN(self.t[name])
+
+    def table(self):
+        """the interning table as a Coq term: list (pname * str)"""
+        return clist(['(%s, %s)' % (cN(v), cstr(k)) for k, v in self.t.items()])
 
 
 def c_pval(v):
@@ -77,7 +82,7 @@ def c_ser(o, nm):
     if k == 'err' or k == 'unparsable':
         return 'SErr'
     if k == 'json':
-        return 'SJsonText'
+        return '(SJsonReal %s)' % cstr(o['text']) if o.get('text') is not None else 'SJsonText'
     d = o['doc']
     keys = clist(['(%s, %s, %s)' % (nm(n), TYPES.get(t, 'TOther'), 'ForNode' if f == 'node' else 'ForEdge')
                   for n, t, f in d['keys']])
@@ -497,7 +502,12 @@ def ser_obs(text, fmt):
     try:
         if fmt == 0:
             return {'kind': 'doc', 'doc': parse_graphml(text)}
-        return {'kind': 'json', 'content': parse_json(text)}
+        o = {'kind': 'json', 'content': parse_json(text)}
+        # the real text goes to Coq (Base/Json.v parses it) unless it is huge or holds a lone surrogate
+        # (json.loads accepts those; Base/Json.v's round-trip domain str_ok excludes them)
+        if len(text) <= JSON_TEXT_LIMIT and not re.search('[\ud800-\udfff]', json.dumps(json.loads(text), ensure_ascii=False)):
+            o['text'] = text
+        return o
     except Exception as e:
         return {'kind': 'unparsable', 'why': repr(e)[:200]}
 
@@ -848,7 +858,7 @@ def first_diff(a, b):
 class RoundTrip(Stream, Run):
     name = 'roundtrip'
     header = ('From Coq Require Import List ZArith NArith.\nImport ListNotations.\n'
-              'From FIM Require Import Base.Str Model.Serial1Text Model.Serial1Graph Model.Serial1Corr.\n')
+              'From FIM Require Import Base.Str Model.Serial1Text Model.Serial1Graph Model.Serial1Json Model.Serial1Corr.\n')
     case_type = 'case * obs'
     check_fn = 'check'
     shard = 60
@@ -890,9 +900,7 @@ class RoundTrip(Stream, Run):
     def to_coq(self, case, o):
         nm = Names()
         pre = clist(['(%s, %s, %s)' % (cbool(d), cstr(gid), c_graph(g, nm)) for d, gid, g in case['pre']])
-        c = ('{| c_pre := %s; c_src := %s; c_raw := %s; c_fmt := %s; c_ep := %s; c_gid := %s; c_watch := %s |}'
-             % (pre, copt(case['src'], cstr), c_graph(case['raw'], nm), FMTS[case['fmt']], EPS[case['ep']], cstr(case['gid']),
-                clist([cstr(w) for w in case['watch']])))
+        raw = c_graph(case['raw'], nm)
         try:
             ob = ('{| o_loads := %s; o_ser := %s; o_res := %s; o_graphs := %s; o_reser := %s |}'
                   % (clist([c_res(r) for r in o['loads']]), c_ser(o['ser'], nm),
@@ -901,6 +909,9 @@ class RoundTrip(Stream, Run):
                      'None' if o['reser'] is None else '(Some %s)' % c_ser(o['reser'], nm)))
         except TypeError as e:      # the implementation produced a value outside str/int/bool
             ob = '{| o_loads := []; o_ser := SErr; o_res := Some RUnsupported; o_graphs := []; o_reser := None |}'
+        c = ('{| c_pre := %s; c_src := %s; c_raw := %s; c_fmt := %s; c_ep := %s; c_gid := %s; c_watch := %s; c_names := %s |}'
+             % (pre, copt(case['src'], cstr), raw, FMTS[case['fmt']], EPS[case['ep']], cstr(case['gid']),
+                clist([cstr(w) for w in case['watch']]), nm.table()))
         return '(%s, %s)' % (c, ob)
 
     flavour = 'shared'
@@ -923,7 +934,7 @@ class RoundTrip(Stream, Run):
     def histogram(self, cases, obs):
         h = {'fmt': {'GraphML': 0, 'JSON': 0}, 'entry': {e: 0 for e in EPS}, 'profile': {}, 'import_result': {},
              'serialize': {}, 'source': {'stored': 0, 'absent': 0, 'raw': 0}, 'nodes_max': 0, 'oracle_in_domain': 0,
-             'topology_models': 0, 'with_cr': 0, 'nonascii': 0}
+             'topology_models': 0, 'with_cr': 0, 'nonascii': 0, 'json_text_parsed_in_coq': 0, 'json_text_withheld': 0}
         for c, o in zip(cases, obs):
             h['fmt']['GraphML' if c['fmt'] == 0 else 'JSON'] += 1
             h['entry'][EPS[c['ep']]] += 1
@@ -935,7 +946,10 @@ class RoundTrip(Stream, Run):
             h['source']['raw' if c['src'] is None else ('stored' if any(gid == c['src'] for _, gid, _ in c['pre']) else 'absent')] += 1
             for _, _, g in c['pre']:
                 h['nodes_max'] = max(h['nodes_max'], len(g['nodes']))
-            h['topology_models'] += c['kind'] == 'topo'
+            h['topology_models'] += c['kind'] in ('topo', 'res')
+            for so in (o['ser'], o['reser']):
+                if so and so.get('kind') == 'json':
+                    h['json_text_parsed_in_coq' if so.get('text') is not None else 'json_text_withheld'] += 1
             g, store = source_graph(c, o)
             if g is not None and in_domain(g, c['fmt']):
                 h['oracle_in_domain'] += 1
@@ -1018,6 +1032,7 @@ class TopoTrip(RoundTrip):
     """the same history for models built through the topology API, driven through Topology.serialize / Topology.load"""
     name = 'topology'
     shard = 5
+    check_fn = 'check_api'
     rule = ('substrate sites (workers, NVMe/GPU/shared and dedicated NICs, NAS, switch, ports, links; texts with quotes, '
             'markup, non-ASCII, blanks, TAB/LF) and slices (VMs, components, L2Bridge / FABNetv4 services, boot scripts) built '
             'through the topology API; both formats x four entry points (string/string-direct/file-direct through '
@@ -1037,6 +1052,85 @@ class TopoTrip(RoundTrip):
 
     def corpus(self):
         return []
+
+
+def build_resources(rng, big=False):
+    """a substrate site with delegations -> (ARM graph, {delegation id: ADM graph}) as case graphs with stable ids"""
+    import fim.user as f
+    t = build_site(rng, big)
+    t.single_delegation(delegation_id='primary', label_pools=f.Pools(atype=f.DelegationType.LABEL),
+                        capacity_pools=f.Pools(atype=f.DelegationType.CAPACITY))
+    arm = t.as_arm()
+    # hand some nodes to a second delegation, so that the ARM splits into two ADMs
+    if rng.random() < 0.6:
+        g = arm.storage.get_graph(arm.graph_id)
+        for n, d in list(g.nodes(data=True)):
+            if d.get('GraphID') != arm.graph_id or rng.random() < 0.6:
+                continue
+            for p in ('CapacityDelegations', 'LabelDelegations'):
+                v = d.get(p)
+                if isinstance(v, str) and v.startswith('{"primary"'):
+                    arm.update_node_property(node_id=d['NodeID'], prop_name=p,
+                                             prop_val=json.dumps({'secondary': json.loads(v)['primary']}))
+    g_arm = nx_to_case_graph(arm.storage.extract_graph(arm.graph_id))
+    adms = arm.generate_adms()
+    out = {}
+    for did, adm in sorted(adms.items()):
+        out[did] = nx_to_case_graph(adm.storage.extract_graph(adm.graph_id))
+    arm.importer.delete_all_graphs()
+    for _, d in g_arm['nodes']:
+        d['GraphID'] = 'arm-site'
+    for did, g in out.items():
+        for _, d in g['nodes']:
+            d['GraphID'] = 'adm-' + did
+    return g_arm, out
+
+
+class ResourcesTrip(RoundTrip):
+    """aggregate resource models (ARM: a substrate site with delegations, fim/graph/resources/networkx_arm.py) and the
+    per-delegation advertisement models generate_adms() cuts out of them (ADM), serialized and re-imported while the
+    other graphs are in the store"""
+    name = 'resources'
+    shard = 4
+    check_fn = 'check_api'
+    rule = ('substrate sites built as in test/substrate_topology_test.py, single_delegation + a second delegation on a '
+            'random subset, as_arm(), generate_adms(): the ARM graph alone, and each ADM graph next to its ARM, through both '
+            'formats x four entry points, onto the same id, onto the other graph\'s id and onto a new id; every snapshot is '
+            'also checked inside Coq to lie in the theorems\' domain (graph_wf, NodeIDs, strings only, JSON names); '
+            'non-trivial = every case; distinct by case value')
+
+    def gen(self, rng, tier):
+        n_sites = 6 if tier == 'quick' else 50
+        out = []
+        k = 0
+        for i in range(n_sites):
+            try:
+                g_arm, adms = build_resources(rng, big=(tier != 'quick' and i % 5 == 0))
+            except Exception as e:
+                log('C01: resource builder failed: %r' % (e,))
+                continue
+            def mk(pre, src, profile, new):
+                nonlocal k
+                watch = []
+                for w in [src, new] + [p[1] for p in pre]:
+                    if w not in watch:
+                        watch.append(w)
+                c = {'kind': 'res', 'profile': profile, 'pre': pre, 'src': src, 'raw': {'nodes': [], 'edges': []},
+                     'fmt': (k // 4) % 2, 'ep': k % 4, 'gid': new, 'watch': watch, 'topo': None, 'peek': rng.random() < 0.3}
+                k += 1
+                return c
+            out.append(mk([[True, 'arm-site', g_arm]], 'arm-site', 'arm', rng.choice(['arm-site', 'arm-copy'])))
+            for did, g in adms.items():
+                gid = 'adm-' + did
+                out.append(mk([[True, 'arm-site', copy.deepcopy(g_arm)], [True, gid, g]], gid, 'adm',
+                              rng.choice([gid, 'adm-copy', 'arm-site'])))
+        return out
+
+    def corpus(self):
+        return []
+
+    def key(self, case, o):
+        return stable_hash(case)
 
 
 class DisjointTrip(RoundTrip):
@@ -1077,8 +1171,8 @@ class DisjointTrip(RoundTrip):
 class C01(Check):
     pid = 'C01'
     translators = []
-    model_targets = ['Model/Serial1Corr.vo', 'Model/Serial1Disjoint.vo']
-    streams = [RoundTrip(), TopoTrip(), DisjointTrip()]
+    model_targets = ['Model/Serial1Json.vo', 'Model/Serial1Corr.vo', 'Model/Serial1Disjoint.vo']
+    streams = [RoundTrip(), TopoTrip(), ResourcesTrip(), DisjointTrip()]
     trusted_base = [
         'Coq 8.16.1 kernel (coqc), vm_compute for the correspondence evaluation; no native_compute',
         'Print Assumptions of every C01 theorem: Closed under the global context (no axioms)',
